@@ -7,7 +7,7 @@ from hypothesis import strategies as st
 from pbt import strategies as S
 from pbt.common import Stats, Sub, Violation
 from pbt.model import NODELIM, Model
-from pbt.sut import mk_incremental_queried, query_everything, call, mk_converter
+from pbt.sut import mk_incremental_queried, mk_split_merge, query_everything, call, mk_converter
 
 PROPERTY_ID = "C07"
 RULE = (
@@ -122,6 +122,11 @@ def check(case, stats: Stats) -> None:
         _check_on(inc, case, Stats())
     except Violation as v:
         v.message = "[converter built incrementally with interleaved queries] " + v.message
+        raise
+    try:
+        _check_on(mk_split_merge(spec), case, Stats())
+    except Violation as v:
+        v.message = "[converter built by merging whole records that are named after a synonym] " + v.message
         raise
 
 
